@@ -63,6 +63,15 @@ func runC10(s *kernel.Sim) {
 	nArr := tp.Range(2, 9)
 	usePrio := tp.Chance(2, 3)
 	hookOn := tp.Chance(3, 4)
+	if tp.Chance(1, 4) {
+		// crowded profile: many waiters of mixed priority behind one slot per window,
+		// a TTL a little shorter than the window - waiters expire one by one while
+		// others stay queued, and the next roll-over has to pick among the rest
+		quota, qsize, usePrio = 1, 4, true
+		winS = tp.Range(3, 5)
+		ttlS = winS - 1
+		nArr = tp.Range(6, 9)
+	}
 	// swarm weights for the step menu (index 0 = start next arrival)
 	wArr := 1 + tp.Choose(4)
 	wRes := tp.Choose(4)
@@ -243,7 +252,8 @@ func runC10(s *kernel.Sim) {
 		case 2:
 			drainBG()
 			nb := nextBoundary()
-			targets := []time.Duration{s.Now() + time.Microsecond, nb, nb - 1, nb + 1, nb + time.Duration(tp.Choose(3))*W + W/2}
+			targets := []time.Duration{s.Now() + time.Microsecond, nb, nb - 1, nb + 1, nb + time.Duration(tp.Choose(3))*W + W/2,
+				s.Now() + time.Duration(1+tp.Choose(3))*500*time.Millisecond}
 			for _, r := range waiting() {
 				if r.task.Parked() {
 					continue
